@@ -35,6 +35,9 @@ class C09(Spec):
 
         def actor_doc(url, host):
             return stamp({"type": "Person", "id": url, "name": "n", "preferredUsername": "u", "inbox": url + "/inbox"}, w.host(host))
+        near_owner = [w.url(ha, "/users/alice?author=2"), w.url(ha, "/users/alice/"), w.url(ha, "/users/Alice"), w.url(ha, "/users/alice?")]
+        for u in near_owner:
+            w.serve(u, netgen.ok_json(actor_doc(u, ha)))
         w.serve(other_same_host, netgen.ok_json(actor_doc(other_same_host, ha)))
         w.serve(other_host_same_path, netgen.ok_json(actor_doc(other_host_same_path, hb)))
         entries, truth = [], []
@@ -42,7 +45,7 @@ class C09(Spec):
         for i in range(n):
             aid = w.url(ha, "/act/%d" % i)
             note = {"type": "Note", "id": None, "content": "post %d" % i}
-            kind = rng.choice(["good", "good", "good-embedded-actor-stub", "other-actor", "other-host", "lying-embedded-actor", "no-actor",
+            kind = rng.choice(["good", "good", "good-embedded-actor-stub", "other-actor", "near-actor", "near-actor", "other-host", "lying-embedded-actor", "no-actor",
                                "wrong-type", "missing", "not-json", "actor-404", "actor-not-actor", "foreign-activity-claims-owner"])
             act = {"type": rng.choice(["Create", "Announce", "Like"]), "id": aid, "actor": owner, "object": note, "published": "2020-01-01T00:00:00Z"}
             genuine = False
@@ -54,6 +57,9 @@ class C09(Spec):
                 genuine = True
             elif kind == "other-actor":
                 act["actor"] = other_same_host
+            elif kind == "near-actor":
+                # another actor whose id is a near miss of the owner's (query, trailing slash, letter case)
+                act["actor"] = rng.choice(near_owner)
             elif kind == "other-host":
                 act["actor"] = other_host_same_path
             elif kind == "lying-embedded-actor":
@@ -167,9 +173,22 @@ class C09(Spec):
                 w.serve(rid, netgen.ok_json(stamp(note, w.host(host))))
             entries.append(rid if rng.random() < 0.6 or kind == "missing" else ({"id": rid} if rng.random() < 0.5 else stamp(dict(note), w.host(ha))))
             truth.append(genuine)
+        coll_host = ha
+        if rng.random() < 0.3:
+            # the replies collection is served by host b; it embeds a full object that claims an id on host a (never served there)
+            # and says it replies to the opened post: it must be fetched from a, i.e. it is an error item
+            coll_host = hb
+            replies = w.url(hb, "/notes/op/replies")
+            forged_id = w.url(ha, "/notes/forged%d" % rng.randrange(100))
+            forged = {"type": "Note", "id": forged_id, "content": "forged", "inReplyTo": me, "attributedTo": alice, "x": 1}
+            w.register_strings(forged)
+            pos = rng.randrange(len(entries) + 1)
+            entries.insert(pos, stamp(forged, w.host(hb)))
+            truth.insert(pos, False)
+            n += 1
         coll = {"type": "Collection", "id": replies, "items": entries}
         w.register_strings(coll)
-        w.serve(replies, netgen.ok_json(stamp(coll, w.host(ha))))
+        w.serve(replies, netgen.ok_json(stamp(coll, w.host(coll_host))))
         key = rng.choice(["replies", "comments"])
         op = {"type": "Note", "id": me, "content": "original post", "attributedTo": alice, key: replies}
         w.register_strings(op)
